@@ -22,7 +22,7 @@ FAMILIES = {
     # not a finding: a group cancelling itself from inside its own argument iterator / factory call.  C07's
     # quantifier excludes it (the spawner only notices at its next suspension), but slots must be conserved
     # all the same - a small directed family with only the slot/accounting oracles of C01/C02 in force.
-    "OWN-ITER": ("C01", "C02"),
+    "OWN-ITER": ("C01", "C02", "C11"),      # (C11: ids stay dense and in creation order there too)
 }
 QUICK_N = {"F-EARLY": 300, "F-LOCK": 200, "OWN-ITER": 150}
 THOROUGH_N = {"F-EARLY": 1500, "F-LOCK": 800, "OWN-ITER": 800}
